@@ -39,7 +39,7 @@ T = {
          'FNV-64a collision freedom on the document is an explicit hypothesis; documents with duplicate attribute names on one element are outside (XML well-formedness)'),
  'C12': ('machine-checked proof in Coq (flat paths and single descendant steps strictly sorted in document order; count = length, reverse, Evaluate = Select; cursor-level iterator machines refine the list model: exhaustion stable, Evaluate rewinds, context preserved) + correspondence check on exact sequences and the iterator protocol',
          'Theorems for all documents/contexts/flat paths of any length; correspondence: exact sequence, Evaluate = Select, count, reverse, 3 extra MoveNext calls after exhaustion.',
-         'iterator protocol proved at cursor level for 8 query types (Model1/Iter.v refines the list level); for the others it is checked dynamically'),
+         'cursor-level refinement (Model1/Iter, Iter2, Iter3) covers every query type, the function layer and the operator layer except lastFuncQuery (refinement false: cached count, outside the fragment) and descendantOverDescendantQuery (not yet proved); end-to-end from the text for ordered paths'),
  'C13': ('machine-checked proof in Coq (context-free queries ignore the start node; addr(n)/p from anywhere = p at n; wrappers preserve the node set / truth value) + correspondence check incl. metamorphic groups on the implementation',
          'Theorems at query level; correspondence: every node as start node, addr(n)/p composition, P[true()], (P), P|P, not(not(P)).',
          'builder-level facts (what the wrappers compile to) are tied by correspondence; composition needs child indices < 2^53'),
@@ -48,13 +48,13 @@ T = {
          ''),
  'C15': ('machine-checked proof in Coq (the model never yields a runtime-error outcome; result types, with the round() refutation) + correspondence check on token-level expressions',
          'Theorem: sel/eval never Crash for ALL queries; documented result types proved except round() (refuted: known finding). Correspondence: every function x arity 0..4 x argument kinds, token soup; outcome classes; crash/budget/undocumented type on the implementation is a violation.',
-         'the model\'s Crash-freedom transfers to the code only through the correspondence (outcome classes compared on every generated case)'),
+         'stated from the text too (every text that compiles, every document and start node); the model\'s Crash-freedom transfers to the code only through the correspondence (outcome classes compared on every generated case)'),
  'C16': ('machine-checked proof in Coq (cache invariants under arbitrary interleavings: exact, bounded, failed loads not stored, get = load; $N rewriting of replace() = XPath reading under a model of Go template expansion) + correspondence check (sequential histories through the hook), race-detector runs, regexp oracles',
          'Theorems for any key/value type, load function, capacity, thread count and schedule; sequential histories exhaustive for capacities 0..3 x keys x length <= 4 (6) and random for 0..5; matches/replace compared with Go regexp directly.',
          'Go regexp is a parameter of the model (Go-side oracle: direct regexp calls and an independent implementation of the XPath replacement reading); locks are modelled as atomic sections; Go template expansion is modelled from its documentation'),
  'C17': ('machine-checked proof in Coq (the parser fails wherever an operand/closer is required and missing: after operators, slashes, brackets, parentheses, commas, @, axis::, unclosed literals, trailing input; unknown functions/axes, bad arity, variables are build errors; function names, arity guards and axis names regenerated from build.go on every run and proved equal to those of the model for every argument count) + correspondence check over damage classes x positions and every function x 0..6 arguments',
          'Every damaged variant must be rejected by the implementation and the model must agree.',
-         'rejection is proved per construct relative to the parser state at the damage; the whole-string statement per damage class is decided by the correspondence'),
+         'whole-string rejection theorems (every white-space layout, intact parts of any size) for cuts after operators, slashes, brackets, call parentheses and commas, missing and unbalanced closers, unknown functions and bad arity; cuts inside string/number tokens and damaged predicates on paths that already carry predicates are decided by the correspondence'),
 }
 
 checks = []
